@@ -37,6 +37,7 @@ type Contract struct {
 	Tags     []string // tags on the func line itself: contract only active for those
 	PkgPath  string
 	Used     bool
+	Synth    bool     // created by a schema only: no ghost frame is claimed, callers havoc the owned ghosts
 	ResNames []string // result names for externs: "-> (n, err)"
 }
 
@@ -90,6 +91,7 @@ type SpecLib struct {
 	Trusted   []*Contract
 	Schemas   []*Contract
 	Immutable [][2]string
+	Dispatch  map[string]string
 	Assumes   []string // scan result: every assumed item, for the evidence file
 }
 
@@ -270,6 +272,17 @@ func (lib *SpecLib) parseLines(lines []rawLine, pkgPath string, isSpec bool) err
 			}
 			lib.Schemas = append(lib.Schemas, cur)
 			counts = map[string]int{}
+		case word == "dispatch" && isSpec:
+			// dispatch <interface> => <concrete type>: values of that /repo interface are of that type
+			parts := strings.Split(rest, "=>")
+			if len(parts) != 2 {
+				return fail("dispatch iface => type")
+			}
+			if lib.Dispatch == nil {
+				lib.Dispatch = map[string]string{}
+			}
+			lib.Dispatch[strings.TrimSpace(parts[0])] = strings.TrimSpace(parts[1])
+			lib.Assumes = append(lib.Assumes, "values of interface "+strings.TrimSpace(parts[0])+" are "+strings.TrimSpace(parts[1])+" (only implementation in /repo besides generated mocks)")
 		case word == "immutable":
 			// immutable T.field, T.field2: fields written only when the object is built
 			if err := finishClause(); err != nil {
